@@ -1060,9 +1060,19 @@ func neutralise(src string, x0 bool, d defuse) string {
 			j = min(j+1, n)
 		case c == '#' && on(i):
 			out = append(out, '#')
+			// inert: a `[` or a `\Q` of this comment has been defused.  What follows it up to the end of the comment was inside
+			// the class / the quoted text for the lexer and inside the comment for the oracle - without effect in both readings -
+			// and must not come alive through the defusing itself (`#[*{\n]` -> `#c*{\nc` would make `{` a new cause): every
+			// special character after it is replaced too
+			inert := false
 			for j < n && rs[j] != '\n' {
 				switch {
 				case d.hashq && j == i+1 && strings.ContainsRune(quant, rs[j]):
+					out = append(out, 'c')
+				case inert && rs[j] == '\\' && j+1 < n && rs[j+1] != '\n':
+					out = append(out, 'c', 'c')
+					j++
+				case inert && strings.ContainsRune("|()[]*+?{}\\^$", rs[j]):
 					out = append(out, 'c')
 				case rs[j] == '\\' && j+1 < n && rs[j+1] != '\n':
 					// an escape inside the comment is ONE token for the lexer (`\|` is no pipe, `\*` no quantifier): it is defused as
@@ -1086,9 +1096,15 @@ func neutralise(src string, x0 bool, d defuse) string {
 							out = append(out, rs[k])
 						}
 					}
+					if rs[j+1] == 'Q' && strings.ContainsRune(d.set, '\\') {
+						inert = true
+					}
 					j = e
 				case strings.ContainsRune(d.set, rs[j]):
 					out = append(out, 'c')
+					if rs[j] == '[' {
+						inert = true
+					}
 				default:
 					out = append(out, rs[j])
 				}
@@ -1133,20 +1149,39 @@ func neutralise(src string, x0 bool, d defuse) string {
 }
 
 // which feature makes Transpile(src, f) differ from Transpile(strip_x(src), f-x): the first
-// single defusing that restores agreement names the cause
+// single defusing that restores agreement (or, failing that, silences the oracle) names the cause; otherwise the
+// smallest set of defusings that does
 func xCause(src string, f bitfield.BitField8) string {
 	g := f
 	g.UnsetFlag(flag.ExtendedFlag)
 	x0 := f.HasFlag(flag.ExtendedFlag)
-	agrees := func(s string) bool {
-		st, ok := xStrip(s, x0)
-		if !ok || wouldHang(s) || wouldHang(st) {
-			return false
+	// what the direct oracle says about a (defused) source: 2 = both readings give the same result, 1 = they differ but the
+	// oracle raises no failure (the implementation rejects the source, or Go rejects the emitted text - exactly the cases the
+	// check only counts), 0 = the failure is still there
+	levels := map[string]int{}
+	level := func(s string) int {
+		if l, ok := levels[s]; ok {
+			return l
 		}
-		_, a := transpileHex(s, f)
-		_, b := transpileHex(st, g)
-		return a == b
+		l := 0
+		if st, ok := xStrip(s, x0); ok && !wouldHang(s) && !wouldHang(st) {
+			ta, a := transpileHex(s, f)
+			_, b := transpileHex(st, g)
+			switch {
+			case a == b:
+				l = 2
+			case a == "ERR":
+				l = 1
+			default:
+				if _, err := regexp.Compile(ta); err != nil {
+					l = 1
+				}
+			}
+		}
+		levels[s] = l
+		return l
 	}
+	agrees := func(s string) bool { return level(s) == 2 }
 	single := []struct {
 		name string
 		d    defuse
@@ -1167,6 +1202,13 @@ func xCause(src string, f bitfield.BitField8) string {
 	}
 	for _, c := range single {
 		if s := neutralise(src, x0, c.d); s != src && agrees(s) {
+			return c.name
+		}
+	}
+	// ... or silences the oracle: with the one cause defused the implementation rejects the source (the defused `[` of
+	// `#x[z\n .. #z{x]` turns `#z{x]` into a real comment, whose `{` is a parse error - counted by the check, not a failure)
+	for _, c := range single {
+		if s := neutralise(src, x0, c.d); s != src && level(s) == 1 {
 			return c.name
 		}
 	}
@@ -1207,20 +1249,30 @@ func xCause(src string, f bitfield.BitField8) string {
 		}
 		return subsets[i].weight < subsets[j].weight
 	})
-	for _, ss := range subsets {
-		var d defuse
-		var names []string
-		for b, k := range cand {
-			if ss.mask&(1<<b) != 0 {
-				c := single[k]
-				names = append(names, c.name)
-				d.set += c.d.set
-				d.hashq, d.nlq, d.wsq, d.lone = d.hashq || c.d.hashq, d.nlq || c.d.nlq, d.wsq || c.d.wsq, d.lone || c.d.lone
+	// per size: first the sets that restore agreement, then the sets that silence the oracle (level 1 above)
+	for from := 0; from < len(subsets); {
+		to := from
+		for to < len(subsets) && subsets[to].size == subsets[from].size {
+			to++
+		}
+		for want := 2; want >= 1; want-- {
+			for _, ss := range subsets[from:to] {
+				var d defuse
+				var names []string
+				for b, k := range cand {
+					if ss.mask&(1<<b) != 0 {
+						c := single[k]
+						names = append(names, c.name)
+						d.set += c.d.set
+						d.hashq, d.nlq, d.wsq, d.lone = d.hashq || c.d.hashq, d.nlq || c.d.nlq, d.wsq || c.d.wsq, d.lone || c.d.lone
+					}
+				}
+				if level(neutralise(src, x0, d)) == want {
+					return "multi-" + strings.Join(names, "+")
+				}
 			}
 		}
-		if agrees(neutralise(src, x0, d)) {
-			return "multi-" + strings.Join(names, "+")
-		}
+		from = to
 	}
 	return "other"
 }
